@@ -617,6 +617,7 @@ func init() {
 		"(*sync.Pool).Get":        poolGet,
 		"(*sync.Pool).Put":        poolPut,
 		"time.Now":                timeNow,
+		"(time.Time).Sub":         timeSub,
 		"time.runtimeNano":        timeMono,
 		"time.Sleep":              func(in *Interp, st *State, fn *ssa.Function, a []Value, r ssa.Value, p token.Pos) (Value, bool) { return nil, true },
 		"internal/bytealg.Compare": func(in *Interp, st *State, fn *ssa.Function, a []Value, r ssa.Value, p token.Pos) (Value, bool) {
@@ -855,6 +856,64 @@ func timeNow(in *Interp, st *State, fn *ssa.Function, args []Value, retTo ssa.Va
 	st.lastWall = ws
 	wall := tf.Concat(tf.ConstU(1, 1), tf.Concat(sec, nsec))
 	return Struct{F: []Value{wall, mono, nilPtr}}, true
+}
+
+// timeSub models (time.Time).Sub for operands that are not both monotonic (the
+// wall-clock branch). The real body multiplies a symbolic number of seconds by
+// 1e9 and checks the result with Add/Equal, i.e. with a division by 1e9 - the
+// kernel no back end decides. The result is the same function, written directly
+// (exact difference when it fits in an int64, else saturated by order), bound to
+// a fresh variable together with two implied facts - its sign and its zero test
+// in terms of the (seconds, nanoseconds) order - so that the usual questions
+// about a difference of times do not need the multiplier.
+func timeSub(in *Interp, st *State, fn *ssa.Function, args []Value, retTo ssa.Value, pos token.Pos) (Value, bool) {
+	t, ok1 := args[0].(Struct)
+	u, ok2 := args[1].(Struct)
+	if !ok1 || !ok2 || len(t.F) != 3 || len(u.F) != 3 {
+		return nil, false
+	}
+	tw, ok1 := t.F[0].(*Term)
+	uw, ok2 := u.F[0].(*Term)
+	te, ok3 := t.F[1].(*Term)
+	ue, ok4 := u.F[1].(*Term)
+	if !ok1 || !ok2 || !ok3 || !ok4 {
+		return nil, false
+	}
+	tf := in.tf
+	c := func(v uint64) *Term { return tf.ConstU(64, v) }
+	mono := func(w *Term) *Term { return tf.Cmp("=", tf.Bin("bvlshr", w, c(63)), c(1)) }
+	tmB, umB := in.decide(st, mono(tw)), in.decide(st, mono(uw)) // the flag bits are decided (forking if both values are possible)
+	if tmB && umB {
+		return nil, false // both monotonic: the real body takes the cheap subMono branch
+	}
+	tm, um := tf.Bool(tmB), tf.Bool(umB)
+	const wallToInternal = (1884*365 + 1884/4 - 1884/100 + 1884/400) * 86400
+	sec := func(w, ext, m *Term) *Term {
+		if m.IsTrue() {
+			return tf.Bin("bvadd", c(wallToInternal), tf.Bin("bvlshr", tf.Bin("bvshl", w, c(1)), c(31)))
+		}
+		return ext
+	}
+	nsec := func(w *Term) *Term { return tf.Bin("bvand", w, c(1<<30-1)) }
+	ts, us, tn, un := sec(tw, te, tm), sec(uw, ue, um), nsec(tw), nsec(uw)
+	ds, dn := tf.Bin("bvsub", ts, us), tf.Bin("bvsub", tn, un)
+	sum := tf.Bin("bvadd", tf.Bin("bvmul", ds, c(1000000000)), dn)
+	zero := c(0)
+	const big = 9223372036
+	inRange := tf.LAnd(tf.Cmp("bvsle", tf.ConstI(64, -big), ds), tf.Cmp("bvsle", ds, tf.ConstI(64, big)))
+	wrapped := tf.LOr(tf.LAnd(tf.Cmp("bvslt", zero, ds), tf.Cmp("bvslt", sum, zero)), tf.LAnd(tf.Cmp("bvslt", ds, zero), tf.Cmp("bvslt", zero, sum)))
+	fits := tf.LAnd(inRange, tf.LNot(wrapped))
+	before := tf.LOr(tf.Cmp("bvslt", ts, us), tf.LAnd(tf.Cmp("=", ts, us), tf.Cmp("bvult", tn, un)))
+	equal := tf.LAnd(tf.Cmp("=", ts, us), tf.Cmp("=", tn, un))
+	res := tf.Ite(fits, sum, tf.Ite(before, c(1<<63), c(1<<63-1)))
+	if res.IsConst() {
+		return res, true
+	}
+	r := in.fresh("tsub", 64)
+	in.addConstraint(st, tf.Cmp("=", r, res))
+	in.addConstraint(st, tf.Cmp("=", tf.Cmp("bvslt", r, zero), before))
+	in.addConstraint(st, tf.Cmp("=", tf.Cmp("=", r, zero), equal))
+	return r, true
 }
 
 func timeMono(in *Interp, st *State, fn *ssa.Function, args []Value, retTo ssa.Value, pos token.Pos) (Value, bool) {
